@@ -40,29 +40,34 @@ Theorem c02_context_rederived : forall a s tr1 tr2 r,
 Proof. exact context_rederived. Qed.
 Print Assumptions c02_context_rederived.
 
-(* Clause 2, one resume.  PARTIAL: under [engine_keeps_persistable a tmo], i.e. the four facts about
-   Engine.start / Engine.resume_session that (i) a sprint that ends normally leaves no pushed flow and only runs
-   whose parent precedes them, (ii) the trigger is never replaced.  What is missing for the full theorem is the
-   proof of these facts by induction over Engine.continue_until_wait.
-   Statement: for a persistable session, reading back succeeds and the same resume gives the same engine result
-   (outcome, events, segments, session), the same persisted session and the same readable per-call fields. *)
-Theorem c02_resume_bisim_partial : forall a tmo, engine_keeps_persistable a tmo ->
-  forall lv r, persistable (lv_core lv) -> tr_ok (s_trigger (lv_core lv)) (lv_tr lv) ->
+(* Clause 2, one resume, for every session a host can hold (made by NewSession, advanced by accepted or rejected
+   resumes, re-read any number of times): reading it back succeeds, yields the same engine state, and the same
+   resume then gives the same engine result (outcome, events, segments, session), the same persisted session and
+   the same readable per-call fields.  Rests on the engine invariant EngineInv.post_inv (no pushed flow after a
+   normal sprint end, parents precede children, trigger never replaced), proved in proofs/EngineInv.v. *)
+Theorem c02_resume_bisim : forall a tmo lv r, reachable a tmo lv ->
   exists lv', restore (persist lv) = Restored lv' /\
+    lv_core lv' = lv_core lv /\
     fst (live_resume a lv' r tmo) = fst (live_resume a lv r tmo) /\
     outcome_of (lv_batch_trigger lv') (fst (live_resume a lv' r tmo)) (snd (live_resume a lv' r tmo))
       = outcome_of (lv_batch_trigger lv) (fst (live_resume a lv r tmo)) (snd (live_resume a lv r tmo)) /\
     context_in_resume a (lv_core lv') (lv_tr lv') r = context_in_resume a (lv_core lv) (lv_tr lv) r.
-Proof. exact resume_bisim_under. Qed.
-Print Assumptions c02_resume_bisim_partial.
+Proof. exact resume_bisim_full. Qed.
+Print Assumptions c02_resume_bisim.
 
-(* Clause 2 over whole histories and every restart subset.  PARTIAL under the same engine facts.
-   For every trigger, batch flag, list of resumes [rs] and restart pattern [bs] (restart before the i-th resume
-   iff the i-th boolean is true), every call has the same outcome — events, segments, resulting persisted
-   session, or the same rejection / error — and its actions read the same per-call fields as when the session is
-   never re-read; in particular reading back never fails along a history. *)
-Theorem c02_any_restart_subset_partial : forall a tmo, engine_keeps_persistable a tmo ->
-  forall t f batch rs bs,
-    run_history_v a tmo t f batch (with_pattern bs rs) = run_history_v a tmo t f batch (never rs).
-Proof. exact any_restart_subset_under. Qed.
-Print Assumptions c02_any_restart_subset_partial.
+(* Clause 2 over whole histories and every restart subset: for every asset store, trigger, batch flag, list of
+   resumes [rs] and restart pattern [bs] (restart before the i-th resume iff the i-th boolean is true), every call
+   has the same outcome — events, segments, resulting persisted session, or the same rejection / error — and its
+   actions read the same per-call fields as when the session is never re-read; in particular reading back never
+   fails along a history. *)
+Theorem c02_any_restart_subset : forall a tmo t f batch rs bs,
+  run_history_v a tmo t f batch (with_pattern bs rs) = run_history_v a tmo t f batch (never rs).
+Proof. exact any_restart_subset_full. Qed.
+Print Assumptions c02_any_restart_subset.
+
+(* the visible results above are the model's observations with the context column added: same outcomes as the
+   function the correspondence check runs (PersistCorr.run_case) *)
+Theorem c02_visible_outcomes : forall a tmo ops lv,
+  map v_outcome (run_resumes_v a tmo lv ops) = map o_outcome (run_resumes a tmo lv ops).
+Proof. exact run_resumes_v_outcomes. Qed.
+Print Assumptions c02_visible_outcomes.
